@@ -325,7 +325,7 @@ def compat_law(ctx, rng, da, db, a, b, state):
       mech = 'frozen'
     elif frozen_shortcut(lb, lv):
       mech = 'frozen-shortcut'
-    elif enum_takes_frozen(la, lb):
+    elif (reason.endswith('.type') or reason.endswith('.no-candidate')) and enum_takes_frozen(la, lb):
       # Enum.is_compatible accepts ANY frozen spec whose frozen value `==` one
       # of its members (True == 1), whatever the class of that spec: one
       # mechanism, not one per partner class.
